@@ -534,7 +534,7 @@ def batch_norm(x, gamma, beta, rm, rv, training, momentum, eps, sqrt):
             if training:
                 if n <= 1:
                     raise Reject("unbiased variance of a single value")
-                new_rv[c] = var * n / (n - 1) * momentum + rv[c] * (1 - momentum)
+                new_rv[c] = var * (float(n) / (float(n) - 1)) * momentum + rv[c] * (1 - momentum)     # n/(n-1) as a float, as any float implementation computes it
             else:
                 new_rv[c] = rv[c]
     return out, new_rm, new_rv
